@@ -52,6 +52,7 @@ class Prepared:
         self.deps = deps            # label -> sorted dynamic_input_keys as computed by the real prepare
         self.problems = problems    # definitions the real prepare did not accept (should be empty)
         self.objects = initial_objects(case, ku.OWNER_REF)
+        self.workflows = {}         # name -> prepared Workflow of every definition of the case (sub-workflows too)
 
 
 def step_timeout() -> float:
@@ -95,7 +96,12 @@ def prepare_case(case, reset=True) -> Prepared:
             deps[s.label] = sorted(s.dynamic_input_keys) if isinstance(s, Step) else None
     else:
         problems.append(f"main workflow not prepared: {wf}")
-    return Prepared(case, wf, deps, problems)
+    prep = Prepared(case, wf, deps, problems)
+    for w in case["defs"]:
+        obj = get_resource_from_cache(resource_class=Workflow, cache_key=w["name"])
+        if obj is not None and kresult.is_unwrapped_ok(obj):
+            prep.workflows[w["name"]] = obj
+    return prep
 
 
 # --------------------------------------------------------------------------- canonical values
@@ -278,8 +284,51 @@ def run_prepared(prep: Prepared, order=None, faults=None, objects=None, trigger=
             "classes": {t[1:]: REASON_CLASS.get(r, "?" + str(r)) for t, r, _ in conds if t != "Ready" and t[1:] in labels},
             "rids": abstract_rids(res.resource_ids),
             "rids_full": canon_unordered(ku.plain(res.resource_ids)),
+            # message texts and locations exactly as returned (compared between passes of ONE implementation only)
+            "texts": {
+                "overall": [getattr(res.result, "message", None), getattr(res.result, "location", None)],
+                "conditions": [[c.get("type"), c.get("message"), c.get("location")] for c in res.conditions],
+                "stateErrors": {k: str(v) for k, v in sorted(res.state_errors.items())},
+            },
         })
     return obs
+
+
+def run_sub(prep: Prepared, name: str, trigger, objects=None):
+    """reconcile one (sub-)workflow definition of the case on its own, sequentially, against a fresh copy of the
+    initial cluster: {"raised", "overall": (class, delay, value), "log"} — what that definition really does on `trigger`"""
+    import celpy
+    from koreo.workflow.reconcile import reconcile_workflow
+
+    wf = prep.workflows.get(name)
+    if wf is None:
+        return None
+    cl = Cluster(objects=copy.deepcopy(prep.objects if objects is None else objects))
+    loop = VirtualLoop()
+    out = {"raised": None, "overall": None}
+    try:
+        asyncio.set_event_loop(loop)
+        res = loop.run_until_complete(reconcile_workflow(
+            api=cl, workflow_key=name, owner=("ns", dict(ku.OWNER_REF)),
+            trigger=celpy.json_to_cel(copy.deepcopy(trigger)), workflow=wf))
+        out["overall"] = outcome_abs(res.result)
+    except (KeyboardInterrupt, SystemExit):
+        raise
+    except BaseException as e:
+        out["raised"] = repr(e)
+    finally:
+        try:
+            pending = [t for t in asyncio.all_tasks(loop) if not t.done()]
+            for t in pending:
+                t.cancel()
+            if pending:
+                loop.run_until_complete(asyncio.gather(*pending, return_exceptions=True))
+        except Exception:
+            pass
+        asyncio.set_event_loop(None)
+        loop.close()
+    out["log"] = [[e["method"], e["name"]] for e in cl.log]
+    return out
 
 
 def result_view(obs):
@@ -288,6 +337,13 @@ def result_view(obs):
 
 
 # --------------------------------------------------------------------------- the model's answer, same vocabulary
+
+def result_view_full(obs):
+    """`result_view` plus every message text / location of the Result (C02: between completion orders of one tree)"""
+    v = result_view(obs)
+    v["texts"] = obs.get("texts")
+    return v
+
 
 def model_view(ans):
     """canonical view of a driver answer (WorkflowWire.ofResult) comparable with run_prepared's observation"""
